@@ -64,8 +64,12 @@ class HaversineRoadNetwork(RoadNetwork):
         return H3Ops.great_circle_distance(origin, destination)
 
     def link_from_link_id(self, link_id: LinkId) -> Optional[Link]:
-        src, dst = h_ops.link_id_to_geodis(link_id)
-        dist = self.distance_by_geoid_km(src, dst)
+        try:
+            src, dst = h_ops.link_id_to_geodis(link_id)
+            dist = self.distance_by_geoid_km(src, dst)
+        except (TypeError, ValueError):
+            # not a "[GeoId]-[GeoId]" link id of this network: there is no such link
+            return None
         link = Link(link_id, src, dst, dist, self._AVG_SPEED_KMPH)
         return link
 
